@@ -31,8 +31,8 @@ class Oracle:
     """Expected trace according to the property text.  A registration is live from the call that added
     it until it returns false or is deleted; the handlers a stanza is offered to are those live when its
     dispatch starts (id handlers for its id first, then stanza handlers, each in registration order), minus
-    those deleted earlier in the same dispatch, restricted to matching filters and (user handlers) to a
-    completed negotiation.  Timed handlers: due when now - (registered | re-armed | last fired) >= period,
+    those deleted earlier in the same dispatch, restricted to matching filters (ns of the stanza, or - user
+    handlers - of a direct child; name; type) and (user handlers) to a completed negotiation.  Timed handlers: due when now - (registered | re-armed | last fired) >= period,
     offered most recently registered first (the list order of the implementation; the property fixes only
     which ones fire), only on a connected connection; context-wide ones always and ungated."""
 
@@ -112,7 +112,8 @@ class Oracle:
         if r.kind == "i":
             return sid is not None and r.key == sid
         fns, fname, ftype = r.flt
-        ok_ns = fns is None or fns == ns or fns in [c for c in children if c is not None]
+        # the namespace of a direct child counts for handlers registered through the public API only
+        ok_ns = fns is None or fns == ns or (r.user and fns in [c for c in children if c is not None])
         return ok_ns and (fname is None or fname == name) and (ftype is None or ftype == typ)
 
     def stanza(self, sz):
